@@ -1387,85 +1387,81 @@ theorem findNewline_some_inv : ∀ (t : Text) (n : Nat), findNewline t = some n 
 
 theorem noLF_of_take {t : Text} (h : ∀ c ∈ t, c ≠ 10) : NoLF t := h
 
-/-- the optional blank behind a doc marker -/
-def docSp (t : Text) : Nat :=
-  match t with
-  | c :: _ => if c == 32 || c == 9 then 1 else 0
-  | [] => 0
-
-/-- the length of the rest of the line -/
-def docN (t : Text) : Nat := (findNewline (t.drop (docSp t))).getD (t.drop (docSp t)).length
-
-theorem docInner_eq (s : St) :
-    docInner s = .ok () ((s.adv (docSp s.rest + docN s.rest)).emit .commentText
-      (s.rest.take (docSp s.rest + docN s.rest))) := rfl
-
-theorem docSp_cases (t : Text) : docSp t = 0 ∨ (docSp t = 1 ∧ ∃ c r, t = c :: r ∧ (c = 32 ∨ c = 9)) := by
-  unfold docSp
-  cases t with
-  | nil => exact .inl rfl
+/-- the optional blank behind a doc marker: what `docBlank` skips -/
+theorem docBlank_inv (s : St) :
+    ∃ sp, s.rest = sp ++ (docBlank s).rest ∧ out (docBlank s) = out s ∧
+      (sp = [32] ∨ sp = [9] ∨ (sp = [] ∧ s.rest.head? ≠ some 32 ∧ s.rest.head? ≠ some 9)) := by
+  unfold docBlank
+  cases hr : s.rest with
+  | nil => exact ⟨[], by simp [hr], rfl, .inr (.inr ⟨rfl, by simp, by simp⟩)⟩
   | cons c r =>
     simp only
     by_cases hc : (c == 32 || c == 9) = true
     · rw [if_pos hc]
-      exact .inr ⟨rfl, c, r, rfl, by simpa using hc⟩
+      have : c = 32 ∨ c = 9 := by simpa using hc
+      refine ⟨[c], by simp [St.adv, hr], rfl, ?_⟩
+      rcases this with rfl | rfl
+      · exact .inl rfl
+      · exact .inr (.inl rfl)
     · rw [if_neg hc]
-      exact .inl rfl
+      have : ¬ (c = 32 ∨ c = 9) := by simpa using hc
+      exact ⟨[], by simp [hr], rfl, .inr (.inr ⟨rfl, by simp; omega, by simp; omega⟩)⟩
 
 theorem docInner_inv {s s' : St} (h : docInner s = .ok () s') :
-    ∃ l, NoLF l ∧ s.rest = l ++ s'.rest ∧ DocEnd l s'.rest ∧ out s' = out s ++ [(.commentText, l)] := by
-  rw [docInner_eq] at h
+    ∃ sp l, DocSp sp l ∧ NoLF l ∧ s.rest = sp ++ (l ++ s'.rest) ∧ DocEnd l s'.rest ∧
+      out s' = out s ++ [(.commentText, l)] := by
+  unfold docInner at h
+  simp only at h
   cases h
-  unfold docN
-  have hsp' := docSp_cases s.rest
-  generalize docSp s.rest = sp at hsp' ⊢
-  refine ⟨s.rest.take (sp + (findNewline (s.rest.drop sp)).getD (s.rest.drop sp).length), ?_, ?_, ?_, by simp⟩
+  obtain ⟨sp, hrest, hout, hsp⟩ := docBlank_inv s
+  generalize docBlank s = s1 at hrest hout ⊢
+  refine ⟨sp, s1.rest.take ((findNewline s1.rest).getD s1.rest.length), ?_, ?_, ?_, ?_, by simp [hout]⟩
+  · -- the blank
+    rcases hsp with rfl | rfl | ⟨rfl, h1, h2⟩
+    · exact .inl rfl
+    · exact .inr (.inl rfl)
+    · refine .inr (.inr ⟨rfl, ?_, ?_⟩)
+      · simp only [List.nil_append] at hrest
+        rw [hrest] at h1
+        intro e
+        cases hr : s1.rest with
+        | nil => rw [hr] at e; simp at e
+        | cons c r =>
+          rw [hr] at e h1
+          cases hn : (findNewline (c :: r)).getD (c :: r).length with
+          | zero => rw [hn] at e; simp at e
+          | succ k => rw [hn] at e; simp at e; exact h1 (by simp [e])
+      · simp only [List.nil_append] at hrest
+        rw [hrest] at h2
+        intro e
+        cases hr : s1.rest with
+        | nil => rw [hr] at e; simp at e
+        | cons c r =>
+          rw [hr] at e h2
+          cases hn : (findNewline (c :: r)).getD (c :: r).length with
+          | zero => rw [hn] at e; simp at e
+          | succ k => rw [hn] at e; simp at e; exact h2 (by simp [e])
   · -- no line feed
     intro x hx
-    rw [List.take_add] at hx
-    simp only [List.mem_append] at hx
-    rcases hx with hx | hx
-    · rcases hsp' with rfl | ⟨rfl, c, r, hr, hc⟩
-      · simp at hx
-      · rw [hr] at hx
-        simp only [List.take_succ_cons, List.take_zero, List.mem_singleton] at hx
-        subst hx
-        rcases hc with rfl | rfl <;> decide
-    · cases hf : findNewline (s.rest.drop sp) with
-      | none =>
-        rw [hf] at hx
-        simp only [Option.getD_none, List.take_length] at hx
-        exact findNewline_none_inv _ hf x hx
-      | some k =>
-        rw [hf] at hx
-        simp only [Option.getD_some] at hx
-        exact (findNewline_some_inv _ k hf).1 x hx
-  · simp
+    cases hf : findNewline s1.rest with
+    | none =>
+      rw [hf] at hx
+      simp only [Option.getD_none, List.take_length] at hx
+      exact findNewline_none_inv _ hf x hx
+    | some k =>
+      rw [hf] at hx
+      simp only [Option.getD_some] at hx
+      exact (findNewline_some_inv _ k hf).1 x hx
+  · rw [hrest]; simp
   · simp only [emit_rest, adv_rest]
-    rw [← List.drop_drop]
-    cases hf : findNewline (s.rest.drop sp) with
+    cases hf : findNewline s1.rest with
     | none =>
       refine .inl ?_
       simp only [Option.getD_none, List.drop_length]
     | some k =>
       simp only [Option.getD_some]
       rcases (findNewline_some_inv _ k hf).2 with ⟨u, hu, hl⟩ | ⟨u, hu⟩
-      · refine .inr (.inl ⟨u, hu, ?_⟩)
-        rw [List.take_add]
-        cases hk : (s.rest.drop sp).take k with
-        | nil =>
-          rw [List.append_nil]
-          rcases hsp' with rfl | ⟨rfl, c, r, hr, hc⟩
-          · simp
-          · rw [hr]
-            simp only [List.take_succ_cons, List.take_zero, List.getLast?_singleton, ne_eq,
-              Option.some.injEq]
-            rcases hc with rfl | rfl <;> decide
-        | cons y l =>
-          rw [← hk, List.getLast?_append]
-          cases hB : ((s.rest.drop sp).take k).getLast? with
-          | none => rw [List.getLast?_eq_none_iff] at hB; rw [hB] at hk; cases hk
-          | some z => rw [hB] at hl; simpa using hl
+      · exact .inr (.inl ⟨u, hu, hl⟩)
       · exact .inr (.inr ⟨u, hu⟩)
 
 theorem optModifier_inv {s s' : St} (h : optModifier s = .ok () s') (hne : s'.rest ≠ []) :
@@ -1619,18 +1615,19 @@ theorem consDoc_valid (l : Text) (hl : NoLF l) (rules : List CRule) (trailing : 
       · exact v1 x hx
     · exact h1 q (by simp [hq])
 
-theorem consDoc_text {l ws rest : Text} {rules : List CRule} {trailing : List Text}
-    (hws : IsTrivia ws) (hd : DocEnd l rest) (h : RulesFrom rules trailing rest) :
-    RulesFrom (consDoc l rules trailing).1 (consDoc l rules trailing).2 (ws ++ (sRDOC ++ (l ++ rest))) := by
+theorem consDoc_text {sp l ws rest : Text} {rules : List CRule} {trailing : List Text}
+    (hsp : DocSp sp l) (hws : IsTrivia ws) (hd : DocEnd l rest) (h : RulesFrom rules trailing rest) :
+    RulesFrom (consDoc l rules trailing).1 (consDoc l rules trailing).2
+      (ws ++ (sRDOC ++ (sp ++ (l ++ rest)))) := by
   obtain ⟨ws', t1, t2, e, hws', rfl, hr, ht, he⟩ := h
   cases rules with
   | nil =>
     have : t1 = t2 := hr
     subst this
-    exact ⟨ws, _, _, e, hws, rfl, rfl, ⟨ws', t1, hws', rfl, hd, ht⟩, he⟩
+    exact ⟨ws, _, _, e, hws, rfl, rfl, ⟨sp, ws', t1, hsp, hws', rfl, hd, ht⟩, he⟩
   | cons r rs =>
     obtain ⟨u1, u2, hdoc, hsc, hrs⟩ := hr
-    exact ⟨ws, _, t2, e, hws, rfl, ⟨u1, u2, ⟨ws', t1, hws', rfl, hd, hdoc⟩, hsc, hrs⟩, ht, he⟩
+    exact ⟨ws, _, t2, e, hws, rfl, ⟨u1, u2, ⟨sp, ws', t1, hsp, hws', rfl, hd, hdoc⟩, hsc, hrs⟩, ht, he⟩
 
 theorem run_succ_inv {n : Nat} {fn : Fn} {s s' : St} (h : run (n + 1) fn s = .ok () s') :
     ∃ next s1, stateFn fn s = .ok next s1 ∧
@@ -1649,8 +1646,8 @@ def RuleOut (s s' : St) (rules : List CRule) (trailing : List Text) : Prop :=
 theorem run_rules : ∀ n : Nat,
     (∀ s s', run n .grammarRule s = .ok () s' → ∃ rules trailing, RuleOut s s' rules trailing ∧
       ∀ t0, TrE t0 s.rest → RulesFrom rules trailing t0) ∧
-    (∀ s s', run n .ruleDocInner s = .ok () s' → ∃ l rest rules trailing, NoLF l ∧
-      s.rest = l ++ rest ∧ DocEnd l rest ∧ (∀ r ∈ rules, r.Valid) ∧ (∀ x ∈ trailing, NoLF x) ∧
+    (∀ s s', run n .ruleDocInner s = .ok () s' → ∃ sp l rest rules trailing, DocSp sp l ∧ NoLF l ∧
+      s.rest = sp ++ (l ++ rest) ∧ DocEnd l rest ∧ (∀ r ∈ rules, r.Valid) ∧ (∀ x ∈ trailing, NoLF x) ∧
       out s' = out s ++ ((.commentText, l) :: (rulesKV rules ++ docsKV .ruleDoc sRDOC trailing)) ∧
       RulesFrom rules trailing rest)
   | 0 => ⟨fun s s' h => by simp [run] at h, fun s s' h => by simp [run] at h⟩
@@ -1709,7 +1706,7 @@ theorem run_rules : ∀ n : Nat,
         rcases hnext with ⟨hc, _⟩ | ⟨fn', hc, hrun⟩
         · cases hc
         · cases hc
-          obtain ⟨l, rest, rules, trailing, hl, hrest, hd, v1, v2, ho, htext⟩ := ihD _ _ hrun
+          obtain ⟨sp, l, rest, rules, trailing, hsp, hl, hrest, hd, v1, v2, ho, htext⟩ := ihD _ _ hrun
           obtain ⟨w1, w2⟩ := consDoc_valid l hl rules trailing v1 v2
           refine ⟨(consDoc l rules trailing).1, (consDoc l rules trailing).2, ⟨w1, w2, ?_⟩, ?_⟩
           · rw [ho, consDoc_kv, (stp_emit_lit (kind := .ruleDoc) hm (by decide) (by decide)).1]
@@ -1721,11 +1718,11 @@ theorem run_rules : ∀ n : Nat,
               rw [e] at hk
               simp [sRDOC] at hk
             obtain ⟨ws0, hws0, rfl⟩ := (ht0.trans hsa).tr hne
-            have : (skipTrivia s).rest = sRDOC ++ (l ++ rest) := by
+            have : (skipTrivia s).rest = sRDOC ++ (sp ++ (l ++ rest)) := by
               rw [← hrest, ← hk]
               simp
             rw [this]
-            exact consDoc_text hws0 hd htext
+            exact consDoc_text hsp hws0 hd htext
     · intro s s' h
       obtain ⟨next, s1, hst, hnext⟩ := run_succ_inv h
       simp only [stateFn] at hst
@@ -1734,16 +1731,16 @@ theorem run_rules : ∀ n : Nat,
       rcases hnext with ⟨hc, _⟩ | ⟨fn', hc, hrun⟩
       · cases hc
       · cases hc
-        obtain ⟨l, hl, hrest, hd, ho⟩ := docInner_inv ha
+        obtain ⟨sp, l, hsp, hl, hrest, hd, ho⟩ := docInner_inv ha
         obtain ⟨rules, trailing, ⟨v1, v2, ho2⟩, htext⟩ := ihR _ _ hrun
-        exact ⟨l, _, rules, trailing, hl, hrest, hd, v1, v2, by rw [ho2, ho]; simp,
+        exact ⟨sp, l, _, rules, trailing, hsp, hl, hrest, hd, v1, v2, by rw [ho2, ho]; simp,
           htext _ (TrE.refl _)⟩
 
 theorem run_grammar : ∀ n : Nat,
     (∀ s s', run n .grammar s = .ok () s' → ∃ c : CGrammar, c.Valid ∧ out s' = out s ++ c.kv ∧
       ∀ t0, TrE t0 s.rest → CGrammarText c t0) ∧
-    (∀ s s', run n .grammarDocInner s = .ok () s' → ∃ l rest, ∃ c : CGrammar, NoLF l ∧
-      s.rest = l ++ rest ∧ DocEnd l rest ∧ c.Valid ∧ out s' = out s ++ ((.commentText, l) :: c.kv) ∧
+    (∀ s s', run n .grammarDocInner s = .ok () s' → ∃ sp l rest, ∃ c : CGrammar, DocSp sp l ∧ NoLF l ∧
+      s.rest = sp ++ (l ++ rest) ∧ DocEnd l rest ∧ c.Valid ∧ out s' = out s ++ ((.commentText, l) :: c.kv) ∧
       CGrammarText c rest)
   | 0 => ⟨fun s s' h => by simp [run] at h, fun s s' h => by simp [run] at h⟩
   | n + 1 => by
@@ -1773,7 +1770,7 @@ theorem run_grammar : ∀ n : Nat,
         rcases hnext with ⟨hc, _⟩ | ⟨fn', hc, hrun⟩
         · cases hc
         · cases hc
-          obtain ⟨l, rest, c, hl, hrest, hd, ⟨v1, v2, v3⟩, ho, htext⟩ := ihD _ _ hrun
+          obtain ⟨sp, l, rest, c, hsp, hl, hrest, hd, ⟨v1, v2, v3⟩, ho, htext⟩ := ihD _ _ hrun
           refine ⟨⟨l :: c.gdocs, c.rules, c.trailing⟩, ⟨?_, v2, v3⟩, ?_, ?_⟩
           · intro x hx
             simp only [List.mem_cons] at hx
@@ -1789,12 +1786,12 @@ theorem run_grammar : ∀ n : Nat,
               rw [e] at hk
               simp [sGDOC] at hk
             obtain ⟨ws0, hws0, rfl⟩ := (ht0.trans hsa).tr hne
-            have : (skipTrivia s).rest = sGDOC ++ (l ++ rest) := by
+            have : (skipTrivia s).rest = sGDOC ++ (sp ++ (l ++ rest)) := by
               rw [← hrest, ← hk]
               simp
             rw [this]
             obtain ⟨lead, u0, u1, u2, e, hlead, rfl, hg, hrs, htr, he⟩ := htext
-            exact ⟨ws0, _, u1, u2, e, hws0, rfl, ⟨lead, u0, hlead, rfl, hd, hg⟩, hrs, htr, he⟩
+            exact ⟨ws0, _, u1, u2, e, hws0, rfl, ⟨sp, lead, u0, hsp, hlead, rfl, hd, hg⟩, hrs, htr, he⟩
     · intro s s' h
       obtain ⟨next, s1, hst, hnext⟩ := run_succ_inv h
       simp only [stateFn] at hst
@@ -1803,9 +1800,9 @@ theorem run_grammar : ∀ n : Nat,
       rcases hnext with ⟨hc, _⟩ | ⟨fn', hc, hrun⟩
       · cases hc
       · cases hc
-        obtain ⟨l, hl, hrest, hd, ho⟩ := docInner_inv ha
+        obtain ⟨sp, l, hsp, hl, hrest, hd, ho⟩ := docInner_inv ha
         obtain ⟨c, hv, ho2, htext⟩ := ihG _ _ hrun
-        exact ⟨l, _, c, hl, hrest, hd, hv, by rw [ho2, ho]; simp, htext _ (TrE.refl _)⟩
+        exact ⟨sp, l, _, c, hsp, hl, hrest, hd, hv, by rw [ho2, ho]; simp, htext _ (TrE.refl _)⟩
 
 /-- **Scanner inversion.**  Whatever the scanner accepts is a layout of a concrete syntax tree
     whose tokens (kinds and values) are the ones emitted. -/
